@@ -39,9 +39,9 @@ CHECKS = {
             'R7a Tx order = (settlement_date, read_index) with read_index only on Equal; R7b sort dominates split_txs_by_security with no mutation in between '
             'and an order-preserving split; R7c the read index is carried across files and incremented per record; R7d header cells are lower-cased and '
             'trimmed before lookup and column indices are positions in the unfiltered row; R7e nothing re-orders or drops the file list between the arguments and the readers. ' + PARTIAL % 'C07'),
-    'C08': ('other', 'loop-exit rule on per-security loops + argument provenance + global-writer census over MIR',
+    'C08': ('other', 'loop-exit and loop-carried-state rules on per-security loops + argument provenance + global-writer census over MIR',
             'R8a no early exit from any loop driven by a security-keyed map; R8b the bookkeeping entry point gets only that security\'s '
-            'rows/opening position and no &mut state; R8c no process-global mutable state beyond three reviewed statics. ' + PARTIAL % 'C08'),
+            'rows/opening position and no &mut state; R8c no process-global mutable state beyond three reviewed statics; R8d no data-dependent state is carried from one iteration of a per-security loop to the next. ' + PARTIAL % 'C08'),
     'C09': ('proof', 'hash-iteration-order taint + sort typestate + loop effect summaries over type-checked MIR; randomness-source census',
             'Every HashMap/HashSet iterator created in any product crate is followed to its consumers; each consumer is discharged '
             '(re-keyed, sorted before use, exact reduction, per-element-key update) or reported; stdout/file sinks only (stderr sinks are '
